@@ -33,6 +33,7 @@ LineOK(e) ==
     [] e.t = "reopen" -> e.res = "ok" /\ e.ms <= ReopenBoundMs /\ e.leaf_ok /\ e.leaves = e.n + 1
     \* a location that holds a tree of another depth: an answer (success, or a refusal) within the bound, never a hang
     [] e.t = "regeom" -> e.res \in {"ok", "err"} /\ e.ms <= ReopenBoundMs
+    [] e.t = "recreate" -> e.res = "ok" /\ e.ms <= ReopenBoundMs      \* other shapes of the storage configuration (location without "temporary")
     [] e.t = "handover" -> e.res = "ok" /\ e.ms <= ReopenBoundMs      \* another thread is still dropping the previous instance
     [] OTHER -> TRUE
 
